@@ -12,7 +12,7 @@ RULE = ('single rules from the AST generator (literal and wildcard segments, int
         'resolving instantiated and mutated paths (digit strings with leading zeros, signs, long and fractional floats, empty '
         'captures, non-ASCII, CR). Non-trivial = the rule has at least one wildcard and the path matched; distinct = distinct (rule text, path).')
 PYOPT = {'quick': 1, 'thorough': 1}     # one unit of every kind is also served by an interpreter started with -O (assert statements compiled out)
-REQUIRED = ['units_run_under_python_-O', 'rebuilt_after_failing_calls', 'keywords_in_another_order', 'built_under_a_narrow_decimal_context', 'roundtrips', 'with_int', 'with_float', 'with_re', 'with_path', 'with_anonymous_positional', 'adjacent_wildcards',
+REQUIRED = ['units_run_under_python_-O', 'roundtrips_in_a_family_sharing_a_filter', 'rebuilt_after_failing_calls', 'keywords_in_another_order', 'built_under_a_narrow_decimal_context', 'roundtrips', 'with_int', 'with_float', 'with_re', 'with_path', 'with_anonymous_positional', 'adjacent_wildcards',
             'path_followed_by_literal', 'float_needing_positional_notation', 'literals_checked', 'static_rules']
 ASSUMPTIONS = ['parameters are exactly those produced by matching (the statement); float digit strings are at most 30 characters',
                'excluded: a number not in canonical spelling that follows a path/re wildcard in the rule (re-spelling it can move the earlier open-ended match; no builder can prevent that), and a negative zero directly after another wildcard',
@@ -21,8 +21,8 @@ ASSUMPTIONS = ['parameters are exactly those produced by matching (the statement
 
 def plan(tier, seed):
     if tier == 'quick':
-        return [{'kind': 'random', 'rules': 500, 'paths': 12, 'sub': i} for i in range(8)] + [{'kind': 'forced'}]
-    return [{'kind': 'random', 'rules': 6000, 'paths': 16, 'sub': i} for i in range(32)] + [{'kind': 'forced'}]
+        return [{'kind': 'random', 'rules': 500, 'paths': 12, 'sub': i} for i in range(8)] + [{'kind': 'forced'}, {'kind': 'family'}]
+    return [{'kind': 'random', 'rules': 6000, 'paths': 16, 'sub': i} for i in range(32)] + [{'kind': 'forced'}, {'kind': 'family'}]
 
 
 def wild_values(cast, s):
@@ -240,6 +240,23 @@ FORCED = [
 ]
 
 
+def _many_anonymous(n, named_every=0):
+    ast = [['lit', 'm%d' % n]]
+    vals = []
+    for i in range(n):
+        ast.append(['lit', '/'])
+        if named_every and i % named_every == 1:
+            ast.append(['wild', 'n%d' % i, 'int', None])
+        else:
+            ast.append(['wild', None, 'int' if i % 3 else 're', None if i % 3 else r'[a-z]\d+'])
+        vals.append(str(100 + i) if ast[-1][2] == 'int' else 'v%d' % i)
+    return ast, ['m%d/' % n + '/'.join(vals), 'm%d/' % n + '/'.join(reversed([v for v in vals if v[0] != 'v'] + [v for v in vals if v[0] == 'v'])) if False else 'm%d/' % n + '/'.join(vals)]
+
+
+# more anonymous wildcards than one usually writes (positional arguments go to them in the order of the rule)
+FORCED += [_many_anonymous(n) for n in (3, 9, 10, 11, 12, 13, 21, 25, 101)] + [_many_anonymous(n, 4) for n in (11, 14, 23)]
+
+
 def random_unit(ctx, unit):
     rng = ctx.rng
     for i in range(unit['rules']):
@@ -260,8 +277,56 @@ def forced_unit(ctx, unit):
             one_rule(ctx, rng, ast, text, paths, forced=True)
 
 
+FAMILIES = [
+    # rules sharing one filter text (with different selectors, or none), registered one after the other: (rule, paths it matches)
+    [('/img/<k.rex((png)|(jpg))[1]>', ['/img/png']), ('/pic/<k.rex((png)|(jpg))[2]>', ['/pic/jpg']), ('/any/<k.rex((png)|(jpg))>', ['/any/png', '/any/jpg']),
+     ('/t/<k.rex((png)|(jpg))[1]>/x', ['/t/png/x']), ('/u/<k.rex((png)|(jpg))>.<n:int>', ['/u/jpg.5', '/u/png.-3']), ('/w/<k.rex((png)|(jpg))[2]>', ['/w/jpg'])],
+    [('/n/<a:int>', ['/n/5', '/n/-12']), ('/n2/<b:int>/x', ['/n2/7/x']), ('/n3/<a:int>-<b:int>', ['/n3/1-2', '/n3/-1--2'])],
+    [('/f/<a:float>', ['/f/1.5', '/f/3']), ('/f2/<b:float>/x', ['/f2/0.25/x'])],
+    [('/r/<a:re:[a-z]+>', ['/r/abc']), ('/r2/<b:re:[a-z]+>/x', ['/r2/q/x']), ('/r3/<a:re:[a-z]+>.<b:re:[a-z]+>', ['/r3/ab.cd'])],
+    [('/p/<a:path>', ['/p/a/b']), ('/p2/<b:path>/end', ['/p2/x/y/end']), ('/p3/<a:path>', ['/p3/q'])],
+]
+
+
+def family_unit(ctx, unit):
+    """Rules that share a filter (the compiled filters are shared process-wide), added to one router one at a time in every
+    rotation of the family; after each addition every rule registered so far makes its round trip.  The oracle is the
+    statement itself: the built URL resolves to the same route with the same parameters."""
+    from ombott.router import RadiRouter
+    for fam in FAMILIES:
+        for rot in range(len(fam)):
+            order = fam[rot:] + fam[:rot]
+            for rev in (False, True):
+                seq = order[::-1] if rev else order
+                router = RadiRouter()
+                routes = []
+                for rule, paths in seq:
+                    routes.append((rule, router.add(rule, 'GET', lambda **kw: kw), paths))
+                    for rule2, route, paths2 in routes:
+                        for pth in paths2:
+                            ctx.case(('fam', tuple(r for r, _ in seq[:len(routes)]), pth), nontrivial=True)
+                            ctx.count('roundtrips_in_a_family_sharing_a_filter')
+                            wit = {'unit': {'kind': 'note', 'rules_registered_in_this_order': [r for r, _, _ in routes], 'rule': rule2, 'path': pth}}
+                            ep, err = router.resolve(pth, ['GET'])
+                            if err or ep[0].route is not route:
+                                ctx.violation('family:path-does-not-resolve-to-its-rule', f'{pth!r} with rules {[r for r, _, _ in routes]}: {err or ep[0].route.rule}', wit)
+                                continue
+                            kw = dict(ep[1])
+                            try:
+                                url = route.url(**kw)
+                            except Exception as e:  # noqa
+                                ctx.violation(f'url()-raises-{type(e).__name__}', f'rule {rule2!r} (rules registered: {[r for r, _, _ in routes]}) path {pth!r} params {kw!r}: {e!r}', wit)
+                                continue
+                            ep2, err2 = router.resolve('/' + url, ['GET'])
+                            if err2 or ep2[0].route is not route or ep2[1] != ep[1]:
+                                ctx.violation('built-url-does-not-lead-back-to-the-match(router-only)', f'rule {rule2!r} path {pth!r} params {kw!r}: url {url!r} -> {err2 or ep2[1]}', wit)
+    ctx.sample({'families': [[r for r, _ in f] for f in FAMILIES[:2]]})
+
+
 def run_unit(ctx, unit):
     k = unit['kind']
+    if k == 'family':
+        return family_unit(ctx, unit)
     if k == 'random':
         random_unit(ctx, unit)
     elif k == 'forced':
